@@ -899,6 +899,27 @@ func judge(cs *Case, out *outcome) (string, []finding, *model) {
 		}
 	}
 	cls, fs, m := judgeWith(cs, out, exs)
+	// lagging node: a call that succeeded although the node does not hold the whole requested
+	// range must have returned exactly the data of the full range. The requests the client
+	// made are answered once more, by a node that holds the range, and the returned blocks
+	// are judged against those answers.
+	if len(fs) == 0 && out.err == nil && out.panicked == nil && cs.Call == "get" && len(cs.Ops) == 1 && cs.Ops[0].Name == "lag" {
+		var ideal []*simeth.Exchange
+		for _, ex := range exs {
+			tree, ok := honestFrom(chain, ex)
+			if !ok {
+				continue
+			}
+			ideal = append(ideal, &simeth.Exchange{Seq: ex.Seq, Host: ex.Host, Batch: ex.Batch, Calls: ex.Calls, Status: 200, Body: marshal(tree)})
+		}
+		if _, f2, _ := judgeWith(cs, out, ideal); len(f2) > 0 {
+			for i := range f2 {
+				f2[i].key = "lagging-node:" + f2[i].key
+				f2[i].detail = fmt.Sprintf("the node's head is block %d, the request covers %d..%d; the call returned no error but not the data of the full range (responses below: what a node holding the range answers to the same requests)\n%s\nresponses actually sent: %s", cs.Ops[0].N, cs.Start, cs.Start+cs.Limit-1, f2[i].detail, sentSummary(exs))
+			}
+			cls, fs = "VIOLATION:"+f2[0].key, f2
+		}
+	}
 	if prefix != "" && len(fs) > 0 {
 		for i := range fs {
 			fs[i].key = prefix + fs[i].key
